@@ -6,7 +6,7 @@ prop = next((a for a in args if not a.startswith("-")), None)
 g = groups.get(prop, "main")
 if "--tier" not in args and os.environ.get("VERIF_TIER"):
     args += ["--tier", os.environ["VERIF_TIER"]]
-if g == "main":
+if g == "main" or "--replay" in args:
     os.chdir(V)
     sys.path.insert(0, V)
     from pyvc.driver import main
